@@ -19,6 +19,7 @@ _FUNCS = {
     "__add__": lambda a, b: a + b,
     "__sub__": lambda a, b: a - b,
     "__mul__": lambda a, b: a * b,
+    "__floordiv__": lambda a, b: a // b,
     "__eq__": lambda a, b: a == b,
     "__ne__": lambda a, b: a != b,
     "__lt__": lambda a, b: a < b,
